@@ -470,15 +470,18 @@ def _iboss(ctx):
     if term[0] != "ret" or len(loops) != 1 or [e for e in effs if e[0] != "for"]:
         _fail("IndividualBOSS.predict_proba: one loop over the instances expected")
     _, it, tgt, body, lv = loops[0]
-    if it not in (("call", ("global", "range"), (n_inst,), ()), ("call", ("global", "range"), (C(0), n_inst), ())):
+    if it in (("call", ("global", "range"), (n_inst,), ()), ("call", ("global", "range"), (C(0), n_inst), ())):
+        row_i, lab = lv, ("sub", preds, lv)
+    elif it == ("call", ("global", "enumerate"), (preds,), ()) and isinstance(tgt, tuple) and len(tgt) == 2:
+        row_i, lab = ("proj", lv, 0, 2), ("proj", lv, 1, 2)            # (i, preds[i])
+    else:
         _fail("IndividualBOSS.predict_proba: loop over the instances of X", it)
     ieffs, _t = straight(body, "IndividualBOSS loop", neutral=VALIDATION_NEUTRAL | {"self.class_dictionary.get"})
     if len(ieffs) != 1 or ieffs[0][0] != "augitem" or ieffs[0][3:] != ("Add", C(1)):
         _fail("IndividualBOSS.predict_proba: dists[i, column] += 1 expected")
     _, table, idx, _o, _i = ieffs[0]
-    lab = ("sub", preds, lv)
     cols = (("call", ("attr", sattr("class_dictionary"), "get"), (lab,), ()), ("sub", sattr("class_dictionary"), lab))
-    if idx not in [("tuple", (lv, c)) for c in cols] or term[1] != table or not (
+    if idx not in [("tuple", (row_i, c)) for c in cols] or term[1] != table or not (
             fn_of(table) == "np.zeros" and list(table[2]) == [("tuple", (n_inst, sattr("num_classes")))]):
         _fail("IndividualBOSS.predict_proba is not the one-hot row of its own prediction", idx)
     return "map (fun c => if eqb pred c then 1 else 0) classes"
@@ -688,8 +691,16 @@ def _get_intervals_facts(ctx):
     if len(loops) != 1 or [e for e in effs if e[0] != "for"] or term[0] != "ret":
         _fail("_get_intervals: one loop over the intervals expected")
     _, it, tgt, body, lv = loops[0]
-    if it != ("call", ("global", "range"), (("param", "n_intervals"),), ()):
-        _fail("_get_intervals: loop over range(n_intervals)", it)
+    table_t = term[1]
+    rows_ok = fn_of(table_t) == "np.zeros" and table_t[2] and table_t[2][0] == ("tuple", (("param", "n_intervals"), C(2)))
+    if it == ("call", ("global", "range"), (("param", "n_intervals"),), ()):
+        row = ("sub", table_t, lv)                      # intervals[j]
+    elif it == table_t and rows_ok:
+        row = lv                                        # for interval in intervals: a row view
+    else:
+        _fail("_get_intervals: loop over the n_intervals rows of the returned table", it)
+    if not rows_ok:
+        _fail("_get_intervals: the table must have n_intervals rows of two ends", table_t)
     draws = []
     writes = {}
     n = body
@@ -703,19 +714,16 @@ def _get_intervals_facts(ctx):
             if writes:
                 _fail("_get_intervals: an interval end is written twice")
             writes[0], writes[1] = e[3][1]
-        elif e[0] == "setitem" and e[1][0] == "sub" and e[1][2] == lv and e[2] in (C(0), C(1)):
-            table = e[1][1]
+        elif e[0] == "setitem" and e[1] == row and e[2] in (C(0), C(1)):
             if e[2][1] in writes:
                 _fail("_get_intervals: an interval end is written twice")
             writes[e[2][1]] = e[3]
-            if term[1] != table:
-                _fail("_get_intervals: the intervals written are not the ones returned")
         elif not is_neutral(e, VALIDATION_NEUTRAL):
             _fail("_get_intervals: unexpected operation", e)
         n = n[2]
     if n[0] != "end" or len(draws) != 2 or sorted(writes) != [0, 1]:
         _fail("_get_intervals: two draws, a start and an end per interval expected")
-    start_cell = ("sub", ("sub", term[1], lv), C(0))
+    start_cell = ("sub", row, C(0))
 
     start_terms = []
 
@@ -763,7 +771,7 @@ def translate(repo):
     def est(i):
         return ("sub", sattr("estimators_"), i)
     # time series forest
-    ctx = Ctx(tsf, "TimeSeriesForestClassifier", primitives=prim, hook=_hook, bases=fb, sig_mods=[fbase])
+    ctx = Ctx(tsf, "TimeSeriesForestClassifier", primitives=prim, hook=_hook, bases=fb, helper_mods=[fbase])
     tsf_c, ty = _forest(ctx, "clf", "TimeSeriesForestClassifier", lambda i: (
         "call", ("attr", est(i), "predict_proba"),
         (("call", ("global", "_transform"), (X, ("sub", sattr("intervals_"), i)), ()),), ()))
@@ -799,7 +807,7 @@ def translate(repo):
         (("call", ("global", "_transform"), (X, ("sub", sattr("intervals"), i), ("sub", sattr("lags"), i)), ()),), ()))
     rise_p = _decode(ctx, "RandomIntervalSpectralForest")
     # forest regressor
-    ctx = Ctx(reg, "TimeSeriesForestRegressor", primitives=prim, hook=_hook, bases=fb, sig_mods=[fbase])
+    ctx = Ctx(reg, "TimeSeriesForestRegressor", primitives=prim, hook=_hook, bases=fb, helper_mods=[fbase])
     reg_c, ty = _forest(ctx, "reg", "TimeSeriesForestRegressor", lambda i: (
         "call", ("attr", est(i), "predict"),
         (("call", ("global", "_transform"), (X, ("sub", sattr("intervals_"), i)), ()),), ()))
